@@ -345,6 +345,7 @@ func FnPkg(fn *ssa.Function) *ssa.Package {
 // pkgAliases: import aliases used throughout /repo's sources, accepted in contracts.
 var pkgAliases = map[string]string{
 	"proto": "google.golang.org/protobuf/proto",
+	"protoreflect": "google.golang.org/protobuf/reflect/protoreflect",
 	"dtpb":  "datatypes_go_proto",
 	"bcrpb": "bundle_and_contained_resource_go_proto",
 	"cpb":   "codes_go_proto",
